@@ -661,6 +661,7 @@ class DAGRunConcurrentManager(DAGRunManagerLike):
             self.dag.input_node,
             (self._node_storage.get_switch_result(node_id)).node_id,
             is_oneof=dag.is_oneof,
+            is_nested_oneof=dag.is_nested_oneof,
         )
 
         result = await self._run_dag(dag=case_dag)
